@@ -159,7 +159,27 @@ def assign(E, tgt, v, st, out, node):
         res = []
         for s1, (recv, key) in E.evs([tgt.value, tgt.slice], st, out):
             if isinstance(recv, VRec):
-                k = _concrete_key(key)
+                try:
+                    k = _concrete_key(key)
+                except OutOfSubset:
+                    k = None
+                if k is None:
+                    # symbolic key: either one of the modelled constant keys or an entry of the custom map
+                    if not (isinstance(key, VStr) and isinstance(v, VRef) and "*" in recv.mapping):
+                        raise OutOfSubset("record store with a symbolic key")
+                    consts = [kk_ for kk_ in recv.mapping if kk_ != "*"]
+                    for kk_ in consts:
+                        f_ = recv.mapping[kk_]
+                        old_ = z3.Select(E.heap(s1, f_), recv.ref)
+                        s1.heap[f_] = z3.Store(E.heap(s1, f_), recv.ref, z3.If(key.t == z3.StringVal(kk_), v.t, old_))
+                        s1.written.add(f_)
+                    fm = recv.mapping["*"]
+                    oldm = z3.Select(E.heap(s1, fm), recv.ref)
+                    is_const = z3.Or([key.t == z3.StringVal(kk_) for kk_ in consts])
+                    s1.heap[fm] = z3.Store(E.heap(s1, fm), recv.ref, z3.If(is_const, oldm, z3.Store(oldm, key.t, v.t)))
+                    s1.written.add(fm)
+                    res.append(s1)
+                    continue
                 if k not in recv.mapping:
                     raise OutOfSubset("record key %r is not modelled" % (k,))
                 E.store(s1, recv.ref, recv.mapping[k], v)
@@ -171,6 +191,24 @@ def assign(E, tgt, v, st, out, node):
             elif isinstance(recv, VRef):
                 for s2, _ in E.call_method(recv, "__setitem__", [key, v], {}, s1, out, node):
                     res.append(s2)
+            elif isinstance(recv, VObj):
+                # opaque in-place update of a library object (numpy arr[mask] = v):
+                # recorded in the ghost set of mutated objects, keyed by the mask used
+                g = s1.ghost.get("$mutated")
+                if g is None:
+                    raise OutOfSubset("subscript store on an opaque object (no $mutated ghost declared)")
+                s1.ghost["$mutated"] = z3.Store(g, recv.t, z3.BoolVal(True))
+                s1.ghost["$mutated_key"] = z3.Store(s1.ghost["$mutated_key"], recv.t, E.to_obj(key))
+                s1.ghost["$mutated_val"] = z3.Store(s1.ghost["$mutated_val"], recv.t, E.to_obj(v))
+                E.may_raise_any(s1, out, node, "opaque subscript store")
+                res.append(s1)
+            elif isinstance(recv, VList) and isinstance(tgt.value, ast.Name) and isinstance(key, VInt) \
+                    and tgt.value.id in (getattr(E.cur, "dict_like", ()) or ()):
+                # a dict with keys 0..n-1 modelled as a list: assigning key n adds it
+                E.goal(s1, "safety:int-keyed-dict-stays-dense", z3.And(key.t >= 0, key.t <= recv.n), "safety", node)
+                cols = [z3.Store(c, key.t, t) for c, t in zip(recv.cols, flatten(v))]
+                s1.env[tgt.value.id] = VList(z3.If(key.t == recv.n, recv.n + 1, recv.n), cols, recv.ety)
+                res.append(s1)
             elif isinstance(recv, VList) and isinstance(tgt.value, ast.Name) and isinstance(key, VInt):
                 # value-list element store (index assumed in range: safety goal)
                 E.goal(s1, "safety:list-store-index", z3.And(key.t >= 0, key.t < recv.n), "safety", node)
@@ -345,7 +383,7 @@ def st_Return(E, n, st):
 
 
 def st_Break(E, n, st):
-    return [Outcome("break", st)]
+    return [Outcome("break", st, node=n)]
 
 
 def st_Continue(E, n, st):
@@ -618,6 +656,28 @@ def check_inv(E, st, n, k, args_ctx, when, idx=None, extra=None):
         E.goal(st, "loop%d:%s:%s" % (k, when, nm), f, "invariant", n)
 
 
+def break_cut(E, o, n, k, idx, extra):
+    """Optional cut at a `break` that sits at the very end of the loop body (contract
+    attribute break_cut = {loop: [text of the guarding if-line]}): the invariant for
+    the next index is PROVED there and then made available as a lemma for the code
+    after the loop (sound: only proved facts are added)."""
+    anchors = (getattr(E.cur, "break_cut", None) or {}).get(k)
+    if not anchors or o.node is None:
+        return
+    lines = E.src[E.cur_module].splitlines()
+    guard = lines[o.node.lineno - 2] if o.node.lineno >= 2 else ""
+    if not any(a in guard for a in anchors):
+        return
+    inv = E.cur.loops[k]
+    c = SpecCtx(E, o.st, E.cur_args, E.cur_h0, i=idx, extra=extra)
+    skip = set(getattr(E.cur, "break_cut_skip", ()) or ())
+    for nm, f in inv(c):
+        if nm in skip:
+            continue
+        E.goal(o.st, "loop%d:at-final-break:%s" % (k, nm), f, "invariant", n)
+        o.st.assume(f)
+
+
 def assume_inv(E, st, n, k, idx=None, extra=None):
     inv = E.cur.loops[k]
     c = SpecCtx(E, st, E.cur_args, E.cur_h0, i=idx, extra=extra)
@@ -725,6 +785,7 @@ def for_over(E, n, itv, st, out):
                 E.check_inv(o.st, n, k, None, "preserved", idx=i + 1)
             elif o.kind == "break":
                 o.st.trace.append("L%d:break" % k)
+                E.break_cut(o, n, k, i + 1, None)
                 res += [Outcome("normal", o.st)]
             else:
                 res.append(o)
@@ -770,6 +831,7 @@ def for_file(E, n, f, mode, start, st, out, k):
                 E.check_inv(o.st, n, k, None, "preserved", idx=i + 1, extra=extra0)
             elif o.kind == "break":
                 o.st.trace.append("L%d:break" % k)
+                E.break_cut(o, n, k, i + 1, extra0)
                 res.append(Outcome("normal", o.st))
             else:
                 res.append(o)
@@ -888,7 +950,7 @@ def _fits(E, v, ty):
     if isinstance(ty, V):
         return type(v) is type(ty) and getattr(v, "name", None) == getattr(ty, "name", None)
     if ty == OBJ:
-        return isinstance(v, (VObj, VStr, VInt, VNone, VConst, VBool, VRef))
+        return isinstance(v, (VObj, VStr, VInt, VNone, VConst, VBool, VRef, VExt, VCList, VTuple))
     if ty == INT:
         return isinstance(v, VInt)
     if ty == STR:
